@@ -183,6 +183,7 @@ func TestC10(t *testing.T) {
 	for _, n := range []int{0, 1, 7, 300} {
 		dcs = append(dcs, dcase{Builder: "auto", Family: "mixed", N: n}, dcase{Builder: "quick", Family: "ascii", N: n})
 	}
+	dcs = append(dcs, dcase{Builder: "auto", Family: "mixedhash", N: 12}, dcase{Builder: "auto", Family: "mixedhash", N: 3}, dcase{Builder: "sharded", Fanout: 16, Family: "mixedhash", N: 60}, dcase{Builder: "quick", Family: "mixedhash", N: 9})
 	dcs = append(dcs, dcase{Builder: "auto", Family: "mixedcids-under", N: 1111}, dcase{Builder: "auto", Family: "mixedcids-over", N: 1112}, dcase{Builder: "auto", Family: "long", N: 1024}, dcase{Builder: "auto", Family: "long", N: 1025}, dcase{Builder: "quick", Family: "mixedcids-under", N: 1111})
 	for _, d := range dcs {
 		d := d
@@ -225,11 +226,34 @@ func TestC10(t *testing.T) {
 					names = append(names, string(b))
 				}
 				mixedCids = true
+			case "mixedhash":
+				names = gen.Names(rr, gen.FamASCII, d.N)
 			default:
 				dd := dirCase{Family: d.Family, N: d.N}
 				names = namesFor(c, dd)
 			}
 			entries, model, sizes := childEntries(base, names)
+			if d.Family == "mixedhash" {
+				// children addressed with different hash functions and digest lengths (a tree assembled
+				// from several sources): what the directory is stored under cannot depend on which comes first
+				entries = entries[:0]
+				kinds := []struct {
+					code uint64
+					ln   int
+				}{{multihash.SHA2_256, -1}, {multihash.SHA2_512, -1}, {multihash.SHA2_256, 20}, {multihash.BLAKE2B_MIN + 31, -1}, {multihash.SHA3_256, -1}, {multihash.IDENTITY, -1}}
+				for i, n := range names {
+					k := kinds[(i+int(c.Seed%6))%len(kinds)]
+					mh, err := multihash.Sum([]byte("child "+n), k.code, k.ln)
+					if err != nil {
+						c.Harness("multihash %x: %v", k.code, err)
+						return
+					}
+					cc := cid.NewCidV1(cid.Raw, mh)
+					model[n] = cc
+					e, _ := builder.BuildUnixFSDirectoryEntry(n, int64(sizes[n]), cidlink.Link{Cid: cc})
+					entries = append(entries, e)
+				}
+			}
 			if mixedCids {
 				// a tenth of the entries point at CIDv0 (34-byte) links
 				entries = entries[:0]
